@@ -33,6 +33,7 @@ type Shared struct {
 	lockCheck       bool
 	ignoreAsserts   bool
 	basePreempt     int
+	schedLimit      int
 	basePerm        int
 	baseSaved       bool
 	trackFuncs      bool
@@ -242,6 +243,12 @@ func (sh *Shared) runHarness(spec HarnessSpec, nworkers int, witnessCap int, dea
 	}
 	if v, ok := sh.params["PERM"]; ok {
 		sh.permLimit = v
+	}
+	// SCHED: bound on how often the scheduler may pick another than the first runnable goroutine when the
+	// running one blocks or ends (-1: every choice is explored, the default)
+	sh.schedLimit = -1
+	if v, ok := sh.params["SCHED"]; ok {
+		sh.schedLimit = v
 	}
 	hr := &HarnessResult{Spec: spec, Asserts: map[string]int{}, Reach: map[string]int{}, Aborts: map[string]int{}, Inconcl: map[string]int{}, Violations: map[string]*Violation{}, ViolCount: map[string]int{}, LockSites: map[string]bool{}, LockEdges: map[string]string{}, Funcs: map[*ssa.Function]bool{}}
 	t0 := time.Now()
